@@ -342,11 +342,12 @@ class DescriptorTransaction(_TransactionBase):
                     continue  # an ancestor is deleted in this transaction
                 else:
                     # this is an update operation
-                    proc.descr_updated.append(new_descriptor)
                     self._logger.debug(  # noqa: PLE1205
                         'transaction_manager: update descriptor Handle={}, DescriptorVersion={}',
                         new_descriptor.Handle, new_descriptor.DescriptorVersion)
                     orig_descriptor.update_from_other_container(new_descriptor)
+                    # publish a copy, not the object that the application got from get_descriptor / write_entity
+                    proc.descr_updated.append(orig_descriptor.mk_copy())
                     self._update_corresponding_state(orig_descriptor)
                     self._mdib.descriptions.update_object_no_lock(orig_descriptor)
             for updates_dict, dest_list in ((self.alert_state_updates, proc.alert_updates),
